@@ -850,3 +850,65 @@ func TestC13SchedPoint(t *testing.T) {
 		ev.Case(evid.Hash("sched", nOthers, event, when, obsIdx, hadList), true, "event:"+event, "when:"+when)
 	})
 }
+
+// TestC13AwayAtLeave: a user is disconnected at the very instant the idle check marks it away
+// (the delayed disconnect of a kick and the 10-second idle tick fall on the same instant): the
+// change notice must not follow the notice that the user left.
+func TestC13AwayAtLeave(t *testing.T) {
+	ev := evid.New("C13", "TestC13AwayAtLeave")
+	defer ev.Flush()
+	rapid.Check(t, func(rt *rapid.T) {
+		nv := rapid.IntRange(1, 4).Draw(rt, "victims")
+		how := rapid.SampledFrom([]string{"kick", "kick", "close"}).Draw(rt, "how")
+		inWorld(rt, hlsim.Options{Agreement: "a", Keepalive: true, Accounts: []hlsim.AccountSpec{acct("admin", "Admin", "adminpw", hlref.AllAccess().Defined()), acct("u", "U", "upw", hlref.Access{})}}, func(rt *rapid.T, w *hlsim.World) {
+			t0 := time.Now()
+			obs := &pclient{idx: 0, roster: map[int]rosterEntry{}}
+			obs.conn = loginAs(rt, w, "10.13.7.1:1", "admin", "adminpw", "observer")
+			var vs []*hlsim.Conn
+			for i := 0; i < nv; i++ {
+				vs = append(vs, loginAs(rt, w, fmt.Sprintf("10.13.7.%d:1", 10+i), "u", "upw", fmt.Sprintf("v%d", i)))
+			}
+			us, err := obs.conn.UserList()
+			if err != nil {
+				rt.Fatalf("harness: %v", err)
+			}
+			for _, u := range us {
+				obs.roster[u.ID] = rosterEntry{name: string(u.Name), icon: u.Icon, flags: u.Flags}
+			}
+			// everybody's last activity is at t0 (+0): the 31st idle tick, at t0+310 s, marks them away
+			lead := time.Second
+			if how == "close" {
+				lead = 0
+			}
+			time.Sleep(time.Until(t0.Add(310*time.Second - lead)))
+			for i, v := range vs {
+				if how == "kick" {
+					obs.conn.SendAsync(hlref.Tran{Type: hlref.TranDisconnectUser, ID: obs.conn.NewID(), Fields: []hlref.Field{fld(hlref.FUserID, hlref.BE16(2+i))}}.Encode())
+				} else {
+					v.Close()
+				}
+			}
+			settle(20 * time.Second)
+			obs.fold(obs.conn.TakeInbox())
+			// fetching the list is activity: the first fetch clears the observer's own away flag (a change notice follows
+			// the reply), the second one is compared
+			if _, err = obs.conn.UserList(); err != nil {
+				rt.Fatalf("harness: %v", err)
+			}
+			obs.fold(obs.conn.TakeInbox())
+			us, err = obs.conn.UserList()
+			if err != nil {
+				rt.Fatalf("harness: %v", err)
+			}
+			obs.fold(obs.conn.TakeInbox())
+			want := map[int]rosterEntry{}
+			for _, u := range us {
+				want[u.ID] = rosterEntry{name: string(u.Name), icon: u.Icon, flags: u.Flags}
+			}
+			if fmt.Sprint(sortedRoster(obs.roster)) != fmt.Sprint(sortedRoster(want)) {
+				rt.Fatalf("%d users left (%s) at the instant the idle check marked them away; the observer's folded roster is\n  %v\nthe server's list is\n  %v", nv, how, sortedRoster(obs.roster), sortedRoster(want))
+			}
+		})
+		ev.Case(evid.Hash("awayleave", nv, how), true, "leave-at-idle-tick:"+how)
+	})
+}
